@@ -49,9 +49,13 @@ def enumerated(tier):
 
 @st.composite
 def _big(draw):
-    return {"kind": "stages", "stager": "windowed", "n_warm": draw(st.integers(200, 100000)),
-            "win": [draw(st.integers(0, 500)), draw(st.integers(0, 2000)), draw(st.integers(0, 2000)),
-                    draw(st.sampled_from([1.0, 1.25, 2.0, 2.5, 4.0]))]}
+    n_warm = draw(st.integers(200, 100000))
+    mult = draw(st.sampled_from([1.0, 1.25, 2.0, 2.5, 4.0]))
+    # with a multiplier below 2 small windows do not grow: keep their number below ~500 so that a correct stages() call stays far
+    # below the watchdog's time limit whatever the machine load (a wall-clock limit must never decide a correct case)
+    lo = 0 if mult >= 2.0 else max(1, n_warm // 500)     # (int(1.25 * w) == w for w < 4: no growth either)
+    return {"kind": "stages", "stager": "windowed", "n_warm": n_warm,
+            "win": [draw(st.integers(lo, max(lo, 500))), draw(st.integers(0, 2000)), draw(st.integers(0, 2000)), mult]}
 
 
 @st.composite
@@ -108,12 +112,12 @@ def check_stages(res, case):
                 import signal
 
                 old = signal.signal(signal.SIGALRM, _timeout)
-                signal.alarm(3)
+                signal.alarm(8)
                 try:
                     stages = stager.stages(n_warm, n_main, mix, tf, trace_warm_up=twu)
                 except _Timeout:
                     res.fail(f"C16:{label}:stages-does-not-terminate", f"stages({n_warm}, {n_main}) with {win} did not "
-                             f"return within 3 s")
+                             f"return within 8 s")
                     return
                 except MemoryError:
                     res.fail(f"C16:{label}:stages-does-not-terminate", f"stages({n_warm}, {n_main}) exhausted memory")
@@ -242,7 +246,8 @@ def check_run(res, case):
         for c in range(n_chain):
             eps0 = integ[(c, lo)]["stats"]["step_size"]
             seq = [integ[(c, it)]["stats"]["accept_stat"] for it in range(lo, hi)]
-            _, bar = dual_averaging_reference(seq, 0.8, 0.05, 0.75, 10, math.log(10 * eps0))
+            mu = cfg.get("reg_target")
+            _, bar = dual_averaging_reference(seq, 0.8, 0.05, 0.75, 10, math.log(10 * eps0) if mu is None else mu)
             finals.append(math.exp(bar))
         ref = sum(finals) / len(finals)
     else:
